@@ -1,6 +1,6 @@
 //! Small-scope grammar of well-formed HTTP/1.x heads (shared by C05, C20, C12).
 
-pub const FIELD_POOL: [&[u8]; 15] = [
+pub const FIELD_POOL: [&[u8]; 18] = [
     b"Location: /caf\xe9/\xfcber",
     b"A: 1",
     b"A: 2",
@@ -18,6 +18,11 @@ pub const FIELD_POOL: [&[u8]; 15] = [
     b"X-Sp: \xc2\xa0v\xe3\x80\x80",
     // a horizontal tab inside the value (between visible characters)
     b"X-Tab: a\tb \t c",
+    // list syntax at its edges: an element that is only white space, an empty first element
+    b"Connection: keep-alive, ,upgrade",
+    b"Transfer-Encoding: ,chunked",
+    // a zero-padded length of 20 digits
+    b"Content-Length: 00000000000000000003",
 ];
 
 pub const STATUSES: [u16; 12] = [101, 200, 204, 299, 301, 302, 304, 307, 399, 404, 500, 999];
